@@ -5,7 +5,7 @@
    statement by statement (base options, first matching entry, proposer-level overwrite,
    reset, update / remove / add of relays); [resolve_v2] / [resolve_v1] are the documented
    precedence.  Relay maps are key-unique association lists ([wf_config2]: Go maps). *)
-From Verif Require Import Lib.Base Model.C10_ExecConfig Proofs.C10 Proofs.C10_Json.
+From Verif Require Import Lib.Base Model.C10_ExecConfig Proofs.C10 Proofs.C10_Json Check.C10 Proofs.C10_Check.
 From Coq Require Import Permutation.
 
 (* ------------------------------------------------------------------------------------------- *)
@@ -193,6 +193,25 @@ Theorem C10_roundtrip_meaning :
                forall v fbfee fbgas, lookup c' v fbfee fbgas = lookup c v fbfee fbgas.
 Proof. exact roundtrip_meaning. Qed.
 Print Assumptions C10_roundtrip_meaning.
+
+(* ------------------------------------------------------------------------------------------- *)
+(* The check itself.  [P_b] (evaluated on what the implementation returned, never through the
+   procedural model) being true means: a document without meaning was refused; otherwise every
+   validator got the settings of the documented precedence (same error; or same fee recipient and
+   the same relays up to order), --proposer-config-check shows those settings, and after
+   marshal -> unmarshal every validator gets them again. *)
+Theorem C10_P_b_sound : forall c : case, P_b c = true -> case_ok c.
+Proof. exact P_b_sound. Qed.
+Print Assumptions C10_P_b_sound.
+
+(* [agree] tests the theorems' hypothesis on every case: where it holds, the parsed configuration
+   has key-unique relay maps and the model's lookup is the documented precedence. *)
+Theorem C10_agree_wf :
+  forall (c : case) (cfg : config), agree c = true -> unmarshal (c_doc c) = Some cfg ->
+    wf_config cfg /\
+    forall v, lookup cfg v (c_fbfee c) (c_fbgas c) = resolve cfg v (c_fbfee c) (c_fbgas c).
+Proof. exact agree_wf. Qed.
+Print Assumptions C10_agree_wf.
 
 (* ------------------------------------------------------------------------------------------- *)
 (* Non-vacuity: the example the tests do not have — a proposer-level value, a relay-level default
